@@ -12,6 +12,22 @@ from ural.patterns import URL_IN_TEXT_RE
 IRRELEVANT_PUNCTUATION = set("!?#\"$%&'()*+,-.:;<=>@[\\]^_`{|}~…’‘`‛«»„‟“”-‐‒–—―−‑⁃,،、")
 
 
+def strip_trailing_punctuation(url):
+    last_punct = None
+
+    stop = len(url) - 1
+    i = stop
+
+    while i != 0 and url[i] in IRRELEVANT_PUNCTUATION and url[i] != last_punct:
+        last_punct = url[i]
+        i -= 1
+
+    if i != stop:
+        url = url[: i + 1]
+
+    return url
+
+
 def urls_from_text(string):
     """
     Function returning an iterator over the urls present in the string argument.
@@ -27,21 +43,16 @@ def urls_from_text(string):
         url = match.group(0)
         s = match.start()
 
-        if s > 0 and string[s - 1] == "[":
-            if "](" in url:
-                remainder, url = url.split("](", 1)
-                yield remainder.strip()
+        # Markdown links
+        # NOTE: each half of the link must be an url on its own, else
+        # we could yield an empty or arbitrary string
+        if s > 0 and string[s - 1] == "[" and "](" in url:
+            for half in url.split("](", 1):
+                half_match = URL_IN_TEXT_RE.match(half)
 
-        last_punct = None
+                if half_match is not None:
+                    yield strip_trailing_punctuation(half_match.group(0))
 
-        stop = len(url) - 1
-        i = stop
+            continue
 
-        while i != 0 and url[i] in IRRELEVANT_PUNCTUATION and url[i] != last_punct:
-            last_punct = url[i]
-            i -= 1
-
-        if i != stop:
-            url = url[: i + 1]
-
-        yield url
+        yield strip_trailing_punctuation(url)
